@@ -64,11 +64,12 @@ Apply(e, c, op, i, v) ==
     [] op = "toarray" -> ToArrayOp(e, c)
     [] op = "walk" -> Res(e, c, TRUE, 0, Len(e), e)        \* complete getnext loop from a zeroed cursor
     [] op = "size" -> Res(e, c, TRUE, 0, Len(e), <<>>)
+    [] op = "debug" -> Res(e, c, TRUE, 0, 0, <<>>)                \* printing the container changes nothing
 
 IdxOps == {"addat", "getat", "setat", "popat", "removeat"}
 ValOps == {"addat", "addfirst", "addlast", "setat", "setfirst", "setlast"}
 NoArgOps == {"getfirst", "getlast", "popfirst", "poplast", "removefirst", "removelast", "reverse", "clear",
-             "toarray", "walk", "size"}
+             "toarray", "walk", "size", "debug"}
 Adds == {"addat", "addfirst", "addlast"}
 Allocating == Adds \cup {"getat", "getfirst", "getlast", "popat", "popfirst", "poplast", "reverse", "resize",
                          "toarray", "walk"}
